@@ -8,6 +8,11 @@ pub open spec fn opt_min(a: Option<Duration>, b: Option<Duration>) -> Option<Dur
     }
 }
 /// relative to the clock value `now`: every entry that is due has left the heap, nothing else has
+/// `ps` lists entries of the heap `before` in non-decreasing deadline order
+pub open spec fn popped_in_order(ps: Seq<TimeoutData>, before: Multiset<TimeoutData>) -> bool {
+    &&& forall|i: int| 0 <= i < ps.len() ==> before.count(#[trigger] ps[i]) > 0
+    &&& forall|i: int, j: int| 0 <= i <= j < ps.len() ==> (#[trigger] ps[i]).ns() <= (#[trigger] ps[j]).ns()
+}
 pub open spec fn due_exactly_popped(before: Multiset<TimeoutData>, after: Multiset<TimeoutData>, now: Instant) -> bool {
     &&& forall|y: TimeoutData| #[trigger] after.count(y) > 0 ==> y.ns() > nanos(now)
     &&& forall|y: TimeoutData| #[trigger] after.count(y) < before.count(y) ==> y.ns() <= nanos(now)
@@ -93,11 +98,34 @@ fn poll_expired_timers_loop(timers_cell: &mut TimerWheel, mut poll_events: Vec<P
         forall|i: int| 0 <= i < poll_events@.len() ==> r->Ok_0@[i] == poll_events@[i],
         forall|i: int| poll_events@.len() <= i < r->Ok_0@.len() ==>
             (#[trigger] r->Ok_0@[i]).readiness.readable && !r->Ok_0@[i].readiness.writable && !r->Ok_0@[i].readiness.error,
+        // C05 (order): the appended events are those of the popped entries, IN THE ORDER in which they were popped, and that
+        // order is non-decreasing in the deadline -- timers due in the same dispatch fire earliest first
+        exists|ps: Seq<TimeoutData>| #[trigger] popped_in_order(ps, old(timers_cell)@)
+            && ps.len() == r->Ok_0@.len() - poll_events@.len()
+            && forall|i: int| 0 <= i < ps.len() ==> r->Ok_0@[poll_events@.len() + i].token == (#[trigger] ps[i]).tok(),
 //@ entry
     let ghost fd_events = poll_events@;
     let ghost timers0 = timers_cell@;
+    let ghost mut popped: Seq<TimeoutData> = Seq::empty();
+//@ before <<while let Some((_, token)) = timers.next_expired(now)>>
+        let ghost mut prev = *timers;
+//@ before <<poll_events.push(PollEvent {>>
+            proof {
+                // the entry this iteration popped is the top of the wheel as it was before the call
+                assert(forall|y: TimeoutData| timers@.count(y) > 0 ==> prev@.count(y) > 0);
+                popped = popped.push(prev.top());
+            }
+//@ after <<poll_events.push(PollEvent {>>
+            proof { prev = *timers; }
 //@ loop 1
+        invariant_except_break
+            prev == *timers,
         invariant
+            popped_in_order(popped, timers0),
+            popped.len() == poll_events@.len() - fd_events.len(),
+            forall|i: int| 0 <= i < popped.len() ==> poll_events@[fd_events.len() + i].token == (#[trigger] popped[i]).tok(),
+            // everything still in the wheel is due no earlier than the entry popped last
+            popped.len() > 0 ==> forall|y: TimeoutData| timers@.count(y) > 0 ==> popped.last().ns() <= #[trigger] y.ns(),
             forall|y: TimeoutData| #[trigger] timers@.count(y) <= timers0.count(y),
             forall|y: TimeoutData| #[trigger] timers@.count(y) < timers0.count(y) ==> y.ns() <= nanos(now),
             poll_events@.len() == fd_events.len() + (timers0.len() - timers@.len()),
